@@ -34,12 +34,12 @@ theorem add_exact_eq_spec (R : Rounding) (a b : Num) (x : Int) (sx : Nat) (y : I
     (opAdd R a b).map absNum = specBin R .add (absNum a) (absNum b) := by
   cases a <;> cases b <;> simp [asDec] at ha hb
   all_goals (obtain ⟨rfl, rfl⟩ := ha; obtain ⟨rfl, rfl⟩ := hb)
-  · simp [opAdd, coerce, mixedOverflow, intOvf, isFloat, absNum, specBin, promote, XVal.ty, Ty.rank, XVal.toRat?, exactBin, Except.map, pure, Except.pure]
+  · simp [opAdd, coerce, mixedOverflow, intOvf, isFloat, promF, isFlt, isDbl, absNum, specBin, promote, XVal.ty, Ty.rank, XVal.toRat?, exactBin, Except.map, pure, Except.pure]
     rw [← Int.cast_add, floor_intCast']
   all_goals
     simp only [trigIdef_bin, asDec, decide_eq_false_iff_not, not_lt] at hfit
     have h := decAdd_exact _ _ _ _ hfit
-    simp [opAdd, coerce, mixedOverflow, intOvf, isFloat, asDec, mkDec, absNum_dec, specBin, promote, XVal.ty, Ty.rank, XVal.toRat?, exactBin,
+    simp [opAdd, coerce, mixedOverflow, intOvf, isFloat, promF, isFlt, isDbl, asDec, mkDec, absNum_dec, specBin, promote, XVal.ty, Ty.rank, XVal.toRat?, exactBin,
       Except.map, pure, Except.pure, absNum, h, decVal_zero_scale]
     first | done | (simp only [decVal] at h; simpa [p10] using h)
 
@@ -73,20 +73,20 @@ theorem idiv_exact_eq_spec (R : Rounding) (a b : Num) (x : Int) (sx : Nat) (y : 
              have h3 := h3.symm; have h4 := h4.symm; subst h1 h2 h3 h4)
   · -- int, int
     by_cases hy : y = 0
-    · simp [opIdiv, coerce, mixedOverflow, intOvf, isFloat, numIsInf, numIsNan, isZero, hy, absNum, specBin, XVal.toRat?, exactBin,
+    · simp [opIdiv, coerce, mixedOverflow, intOvf, isFloat, promF, isFlt, isDbl, numIsInf, numIsNan, isZero, hy, absNum, specBin, XVal.toRat?, exactBin,
         Except.map, throw, throwThe, MonadExceptOf.throw]
     · have hyq : (y : Rat) ≠ 0 := by exact_mod_cast hy
-      simp [opIdiv, coerce, mixedOverflow, intOvf, isFloat, numIsInf, numIsNan, isZero, hy, hyq, absNum, specBin, XVal.toRat?, exactBin,
+      simp [opIdiv, coerce, mixedOverflow, intOvf, isFloat, promF, isFlt, isDbl, numIsInf, numIsNan, isZero, hy, hyq, absNum, specBin, XVal.toRat?, exactBin,
         Except.map, pure, Except.pure, idivInt_eq_tdiv, trunc_div_int _ _ hy]
   all_goals
     by_cases hy : y = 0
-    · simp [opIdiv, coerce, mixedOverflow, intOvf, isFloat, numIsInf, numIsNan, isZero, hy, absNum, specBin, XVal.toRat?, exactBin,
+    · simp [opIdiv, coerce, mixedOverflow, intOvf, isFloat, promF, isFlt, isDbl, numIsInf, numIsNan, isZero, hy, absNum, specBin, XVal.toRat?, exactBin,
         Except.map, throw, throwThe, MonadExceptOf.throw, p10]
     · simp [trigIdef_bin, asDec, hy] at hfit
       have hd := decIdiv_of_fits _ _ _ _ hfit
       have hq := decIdiv_eq_trunc _ _ y _ hy _ hd
       have hyq : (y : Rat) ≠ 0 := by exact_mod_cast hy
-      simp [opIdiv, coerce, mixedOverflow, intOvf, isFloat, numIsInf, numIsNan, isZero, hy, hyq, absNum, specBin, XVal.toRat?, exactBin,
+      simp [opIdiv, coerce, mixedOverflow, intOvf, isFloat, promF, isFlt, isDbl, numIsInf, numIsNan, isZero, hy, hyq, absNum, specBin, XVal.toRat?, exactBin,
         Except.map, pure, Except.pure, asDec, hd, p10_castR_pos]
       first
         | exact hq
@@ -109,18 +109,18 @@ theorem mod_exact_eq_spec (R : Rounding) (v : Ver) (a b : Num) (x : Int) (sx : N
              have h3 := h3.symm; have h4 := h4.symm; subst h1 h2 h3 h4)
   · -- int, int
     by_cases hy : y = 0
-    · simp [opMod, coerce, mixedOverflow, intOvf, isFloat, numIsInf, isZero, isFloat, hy, absNum, specBin, XVal.toRat?, exactBin,
+    · simp [opMod, coerce, mixedOverflow, intOvf, isFloat, promF, isFlt, isDbl, numIsInf, isZero, isFloat, hy, absNum, specBin, XVal.toRat?, exactBin,
         Except.map, throw, throwThe, MonadExceptOf.throw]
     · have hyq : (y : Rat) ≠ 0 := by exact_mod_cast hy
       have hm : ((x : Rat) - (y : Rat) * ((x.tdiv y : Int) : Rat)) = ((x.tmod y : Int) : Rat) := by
         have := Int.mul_tdiv_add_tmod x y
         have e : x.tmod y = x - y * x.tdiv y := by omega
         rw [e]; push_cast; ring
-      simp [opMod, coerce, mixedOverflow, intOvf, isFloat, numIsInf, isZero, isFloat, hy, hyq, absNum, specBin, XVal.toRat?, exactBin, promote,
+      simp [opMod, coerce, mixedOverflow, intOvf, isFloat, promF, isFlt, isDbl, numIsInf, isZero, isFloat, hy, hyq, absNum, specBin, XVal.toRat?, exactBin, promote,
         XVal.ty, Ty.rank, Except.map, pure, Except.pure, modInt_eq_tmod, trunc_div_int _ _ hy, hm, floor_intCast']
   all_goals
     by_cases hy : y = 0
-    · simp [opMod, coerce, mixedOverflow, intOvf, isFloat, numIsInf, isZero, isFloat, hy, absNum, specBin, XVal.toRat?, exactBin, asDec,
+    · simp [opMod, coerce, mixedOverflow, intOvf, isFloat, promF, isFlt, isDbl, numIsInf, isZero, isFloat, hy, absNum, specBin, XVal.toRat?, exactBin, asDec,
         Except.map, throw, throwThe, MonadExceptOf.throw, p10]
     · simp only [trigIdef_bin, asDec] at hfit
       have hne : (y != 0) = true := by simpa using hy
@@ -129,7 +129,7 @@ theorem mod_exact_eq_spec (R : Rounding) (v : Ver) (a b : Num) (x : Int) (sx : N
       obtain ⟨r, hr⟩ := decMod_of_fits _ _ _ _ hfit.1
       have hq := decMod_eq_spec _ _ y _ hy r hr hfit.2
       have hyq : (y : Rat) ≠ 0 := by exact_mod_cast hy
-      simp [opMod, coerce, mixedOverflow, intOvf, isFloat, numIsInf, isZero, isFloat, hy, hyq, absNum, specBin, XVal.toRat?, exactBin, promote,
+      simp [opMod, coerce, mixedOverflow, intOvf, isFloat, promF, isFlt, isDbl, numIsInf, isZero, isFloat, hy, hyq, absNum, specBin, XVal.toRat?, exactBin, promote,
         XVal.ty, Ty.rank, Except.map, pure, Except.pure, asDec, hr, mkDec, p10_castR_pos]
       first
         | exact hq
@@ -138,7 +138,7 @@ theorem mod_exact_eq_spec (R : Rounding) (v : Ver) (a b : Num) (x : Int) (sx : N
 theorem div_dbl_eq_spec (R : Rounding) (v : Ver) (x y : Dbl) (hx : x.wf) :
     (opDiv R v (.dbl x) (.dbl y)).map absNum = specBin R .div (.double x) (.double y) := by
   cases x <;> cases y <;>
-    simp [opDiv, coerce, mixedOverflow, intOvf, isFloat, isZero, Dbl.isZero, asDec, liftF, ftruediv, ieeeDiv, specBin, promote, XVal.ty, Ty.rank,
+    simp [opDiv, coerce, mixedOverflow, intOvf, isFloat, promF, isFlt, isDbl, isZero, Dbl.isZero, asDec, liftF, ftruediv, ieeeDiv, specBin, promote, XVal.ty, Ty.rank,
       XVal.toRat?, floatBin, XVal.toDbl, mkFloating, absNum, isFloat, signOf, zeroIsNeg, Dbl.isNeg, Except.map, pure, Except.pure]
   · rename_i a b; cases a <;> simp
   · rename_i q b
@@ -150,13 +150,13 @@ theorem div_dbl_eq_spec (R : Rounding) (v : Ver) (x y : Dbl) (hx : x.wf) :
       simp [h, this]
 
 
-theorem mod_dbl_eq_spec_partial (R : Rounding) (v : Ver) (x y : Dbl)
-    (hk : trigF06x R v .mod (.dbl x) (.dbl y) = false) :
+theorem mod_dbl_eq_spec (R : Rounding) (v : Ver) (x y : Dbl) :
     (opMod R v (.dbl x) (.dbl y)).map absNum = specBin R .mod (.double x) (.double y) := by
   cases x <;> cases y <;> cases v <;>
-    simp_all [opMod, coerce, mixedOverflow, intOvf, isFloat, isZero, Dbl.isZero, asDec, liftF, fmod, ieeeMod, specBin, promote, XVal.ty, Ty.rank,
+    simp_all [opMod, coerce, mixedOverflow, intOvf, isFloat, promF, isFlt, isDbl, asDblOf, isZero, Dbl.isZero, asDec, liftF,
+      fmod, ieeeMod, specBin, promote, XVal.ty, Ty.rank,
       XVal.toRat?, floatBin, XVal.toDbl, mkFloating, absNum, isFloat, numIsInf, numIsNan, Dbl.isInf, Dbl.isNan,
-      pyFloatModIsNan, trigF06x, Except.map, pure, Except.pure]
+      pyFloatModIsNan, Except.map, pure, Except.pure]
 
 /-- truncation from floor and the exactness test, as `idiv` does it on floats -/
 theorem floor_corr_eq_trunc (q : Rat) :
@@ -191,11 +191,9 @@ theorem floor_corr_eq_trunc (q : Rat) :
 theorem idiv_dbl_eq_spec (R : Rounding) (x y : Dbl) :
     (opIdiv R (.dbl x) (.dbl y)).map absNum = specBin R .idiv (.double x) (.double y) := by
   cases x <;> cases y <;>
-    simp [opIdiv, coerce, mixedOverflow, intOvf, isFloat, isZero, Dbl.isZero, asDec, idivFloat, dblIdiv, specBin, promote, XVal.ty, Ty.rank,
+    simp [opIdiv, coerce, mixedOverflow, intOvf, isFloat, promF, isFlt, isDbl, isZero, Dbl.isZero, asDec, idivFloat, dblIdiv, specBin, promote, XVal.ty, Ty.rank,
       XVal.toRat?, floatBin, XVal.toDbl, absNum, numIsInf, numIsNan, Dbl.isInf, Dbl.isNan,
       Except.map, pure, Except.pure, bind, Except.bind, throw, throwThe, MonadExceptOf.throw]
-  rename_i p q
-  exact floor_corr_eq_trunc (p / q)
 
 
 theorem quantMag_zero (m : Mode) (p : Int) : quantMag m 0 p = 0 := by
@@ -223,9 +221,9 @@ theorem round_dbl_eq_spec (R : Rounding) (d : Dbl) (p : Int)
   | nan => simp [roundCore, exactOf, floatUn]
   | inf n => simp [roundCore, exactOf, floatUn]
   | zero n =>
-    simp [roundCore, exactOf, floatUn, quantMag_zero, numDigits, numDigits10, retype, unscale_zero, argNeg, Dbl.isNeg]
+    simp [roundCore, exactOf, floatUn, quantMag_zero, numDigits, numDigits10, roundCtxDigits, retype, unscale_zero, argNeg, Dbl.isNeg]
   | fin x =>
-    have hd : ¬ numDigits (quantMag (if x > 0 then Mode.halfUp else Mode.halfDown) x p) > 28 := by
+    have hd : ¬ numDigits (quantMag (if x > 0 then Mode.halfUp else Mode.halfDown) x p) > roundCtxDigits := by
       simpa [trigF06p, exactOf] using hk
     simp only [roundCore, exactOf, hd, if_false, retype, argNeg, Dbl.isNeg, floatUn, backTo, exactUn]
     simp only [quantize_round_eq]
@@ -251,14 +249,14 @@ theorem sub_exact_eq_spec (R : Rounding) (a b : Num) (x : Int) (sx : Nat) (y : I
   cases a <;> cases b <;> simp [asDec] at ha hb
   all_goals (obtain ⟨h1, h2⟩ := ha; obtain ⟨h3, h4⟩ := hb; have h1 := h1.symm; have h2 := h2.symm
              have h3 := h3.symm; have h4 := h4.symm; subst h1 h2 h3 h4)
-  · simp [opSub, coerce, mixedOverflow, intOvf, isFloat, absNum, specBin, promote, XVal.ty, Ty.rank, XVal.toRat?, exactBin, Except.map, pure, Except.pure]
+  · simp [opSub, coerce, mixedOverflow, intOvf, isFloat, promF, isFlt, isDbl, absNum, specBin, promote, XVal.ty, Ty.rank, XVal.toRat?, exactBin, Except.map, pure, Except.pure]
     rw [← Int.cast_sub, floor_intCast']
   all_goals
     simp only [trigIdef_bin, asDec, decide_eq_false_iff_not, not_lt] at hfit
     rw [Int.sub_eq_add_neg, ← Int.neg_mul] at hfit
     have h := decAdd_exact _ _ _ _ hfit
     rw [decVal_neg] at h
-    simp [opSub, coerce, mixedOverflow, intOvf, isFloat, asDec, mkDec, absNum_dec, specBin, promote, XVal.ty, Ty.rank, XVal.toRat?, exactBin,
+    simp [opSub, coerce, mixedOverflow, intOvf, isFloat, promF, isFlt, isDbl, asDec, mkDec, absNum_dec, specBin, promote, XVal.ty, Ty.rank, XVal.toRat?, exactBin,
       Except.map, pure, Except.pure, absNum, h, decVal_zero_scale, sub_eq_add_neg]
     first | done | (simp only [decVal] at h; simpa [p10, sub_eq_add_neg] using h)
 
@@ -269,12 +267,12 @@ theorem mul_exact_eq_spec (R : Rounding) (a b : Num) (x : Int) (sx : Nat) (y : I
   cases a <;> cases b <;> simp [asDec] at ha hb
   all_goals (obtain ⟨h1, h2⟩ := ha; obtain ⟨h3, h4⟩ := hb; have h1 := h1.symm; have h2 := h2.symm
              have h3 := h3.symm; have h4 := h4.symm; subst h1 h2 h3 h4)
-  · simp [opMul, coerce, mixedOverflow, intOvf, isFloat, absNum, specBin, promote, XVal.ty, Ty.rank, XVal.toRat?, exactBin, Except.map, pure, Except.pure]
+  · simp [opMul, coerce, mixedOverflow, intOvf, isFloat, promF, isFlt, isDbl, absNum, specBin, promote, XVal.ty, Ty.rank, XVal.toRat?, exactBin, Except.map, pure, Except.pure]
     rw [← Int.cast_mul, floor_intCast']
   all_goals
     simp only [trigIdef_bin, asDec, decide_eq_false_iff_not, not_lt] at hfit
     have h := fun sa sb => decMul_exact x sa y sb hfit
-    simp [opMul, coerce, mixedOverflow, intOvf, isFloat, asDec, mkDec, absNum_dec, specBin, promote, XVal.ty, Ty.rank, XVal.toRat?, exactBin,
+    simp [opMul, coerce, mixedOverflow, intOvf, isFloat, promF, isFlt, isDbl, asDec, mkDec, absNum_dec, specBin, promote, XVal.ty, Ty.rank, XVal.toRat?, exactBin,
       Except.map, pure, Except.pure, absNum, decVal_zero_scale]
     first
       | done
@@ -287,7 +285,7 @@ theorem div_zero_exact (R : Rounding) (v : Ver) (hv : v ≠ .v10) (a b : Num)
     (ha : isFloat a = false) (hb : isFloat b = false) (hz : isZero b = true) :
     opDiv R v a b = .error .FOAR0001 ∧ opIdiv R a b = .error .FOAR0001 ∧ opMod R v a b = .error .FOAR0001 := by
   cases a <;> cases b <;> simp [isFloat] at ha hb <;> simp [isZero] at hz <;> subst hz <;> cases v <;>
-    simp_all [opDiv, opIdiv, opMod, coerce, mixedOverflow, intOvf, isFloat, isZero, isFloat, numIsInf, numIsNan, asDec, throw, throwThe,
+    simp_all [opDiv, opIdiv, opMod, coerce, mixedOverflow, intOvf, isFloat, promF, isFlt, isDbl, isZero, isFloat, numIsInf, numIsNan, asDec, throw, throwThe,
       MonadExceptOf.throw]
 
 
@@ -312,7 +310,7 @@ theorem round_dec_eq_spec (R : Rounding) (n : Int) (s : Nat) (p : Int)
     (hk : trigF06p (.round p) (.dec n s) = false) :
     absNum (roundCore R (.dec n s) p) = .decimal (roundHalfUp (decVal n s) p) := by
   have hx : ((n : Rat) / ((p10 s : Nat) : Rat)) = decVal n s := rfl
-  have hd : ¬ numDigits (quantMag (if decVal n s > 0 then Mode.halfUp else Mode.halfDown) (decVal n s) p) > 28 := by
+  have hd : ¬ numDigits (quantMag (if decVal n s > 0 then Mode.halfUp else Mode.halfDown) (decVal n s) p) > roundCtxDigits := by
     simpa [trigF06p, exactOf, hx] using hk
   have hneg : argNeg (.dec n s) = decide (decVal n s < 0) := by
     simp [argNeg, decVal_neg_iff]
@@ -322,7 +320,7 @@ theorem rhe_dec_eq_spec (R : Rounding) (n : Int) (s : Nat) (p : Int)
     (hk : trigF06p (.rhe p) (.dec n s) = false) :
     absNum (fnRhe R (.dec n s) p) = .decimal (roundHalfEven (decVal n s) p) := by
   have hx : ((n : Rat) / ((p10 s : Nat) : Rat)) = decVal n s := rfl
-  have hd : ¬ numDigits (quantMag Mode.halfEven (decVal n s) p) > 28 := by
+  have hd : ¬ numDigits (quantMag Mode.halfEven (decVal n s) p) > roundCtxDigits := by
     simpa [trigF06p, exactOf, rheDecOverflow, hx] using hk
   have hneg : argNeg (.dec n s) = decide (decVal n s < 0) := by
     simp [argNeg, decVal_neg_iff]
@@ -334,7 +332,7 @@ theorem intCast_neg_iff (n : Int) : ((n : Rat) < 0) ↔ n < 0 := by
 theorem round_int_eq_spec (R : Rounding) (n : Int) (p : Int)
     (hk : trigF06p (.round p) (.int n) = false) :
     absNum (roundCore R (.int n) p) = .integer (roundHalfUp (n : Rat) p).floor := by
-  have hd : ¬ numDigits (quantMag (if (n : Rat) > 0 then Mode.halfUp else Mode.halfDown) (n : Rat) p) > 28 := by
+  have hd : ¬ numDigits (quantMag (if (n : Rat) > 0 then Mode.halfUp else Mode.halfDown) (n : Rat) p) > roundCtxDigits := by
     simpa [trigF06p, exactOf] using hk
   have hneg : argNeg (.int n) = decide ((n : Rat) < 0) := by
     simp [argNeg, intCast_neg_iff]
@@ -376,7 +374,7 @@ theorem type_promotion_addsubmul (R : Rounding) (a b r : Num) :
     (opMul R a b = .ok r → numTy r = promote (numTy a) (numTy b)) := by
   refine ⟨?_, ?_, ?_⟩ <;> intro h <;>
   cases a <;> cases b <;>
-    simp [opAdd, opSub, opMul, coerce, mixedOverflow, intOvf, isFloat, asDec, liftF, mkDec, pure, Except.pure,
+    simp [opAdd, opSub, opMul, coerce, mixedOverflow, intOvf, isFloat, promF, isFlt, isDbl, asDec, liftF, mkDec, pure, Except.pure,
       throw, throwThe, MonadExceptOf.throw] at h <;>
     (try split at h) <;> (try cases h) <;> (try subst h) <;> simp_all [numTy, promote, Ty.rank]
 
@@ -387,42 +385,41 @@ theorem type_idiv (R : Rounding) (a b r : Num) (h : opIdiv R a b = .ok r) : numT
   repeat' split at h
   all_goals (cases h; try rfl)
 
-theorem type_div_partial (R : Rounding) (v : Ver) (hv : v ≠ .v10) (a b r : Num) (h : opDiv R v a b = .ok r)
-    (hk : trigF06t R v .div a b = false) : numTy r = resultTy .div (numTy a) (numTy b) := by
+theorem type_div (R : Rounding) (v : Ver) (hv : v ≠ .v10) (a b r : Num) (h : opDiv R v a b = .ok r) :
+    numTy r = resultTy .div (numTy a) (numTy b) := by
   cases a <;> cases b <;>
-    simp [opDiv, coerce, mixedOverflow, intOvf, isFloat, asDec, liftF, mkDec, pure, Except.pure, throw, throwThe, MonadExceptOf.throw,
-      trigF06t, floatTyped, isFlt, isDbl] at h hk <;>
+    simp [opDiv, coerce, mixedOverflow, intOvf, isFloat, promF, isFlt, isDbl, asDec, liftF, mkDec, pure, Except.pure,
+      throw, throwThe, MonadExceptOf.throw] at h <;>
     (repeat' split at h) <;> (try cases h) <;> simp_all [numTy, resultTy, promote, Ty.rank, isZero, isFloat]
 
-theorem type_mod_partial (R : Rounding) (v : Ver) (hv : v ≠ .v10) (a b r : Num) (h : opMod R v a b = .ok r)
-    (hk : trigF06t R v .mod a b = false) :
+theorem type_mod (R : Rounding) (v : Ver) (a b r : Num) (h : opMod R v a b = .ok r) :
     numTy r = resultTy .mod (numTy a) (numTy b) := by
   cases a <;> cases b <;>
-    simp [opMod, coerce, mixedOverflow, intOvf, isFloat, asDec, liftF, mkDec, pure, Except.pure, throw, throwThe, MonadExceptOf.throw,
-      trigF06t, floatTyped, isFlt, isDbl, numIsInf, numIsNan, isFloat] at h hk <;>
+    simp [opMod, coerce, mixedOverflow, intOvf, isFloat, promF, isFlt, isDbl, asDec, liftF, mkDec, pure, Except.pure,
+      throw, throwThe, MonadExceptOf.throw, numIsInf, numIsNan, isFloat] at h <;>
     (repeat' split at h) <;> (try cases h) <;> simp_all [numTy, resultTy, promote, Ty.rank, isZero, isFloat]
 
 /-- `idiv` on two xs:integer operands, all integers (no digit limit: Python ints are unbounded) -/
 theorem idiv_int_int_eq_spec (R : Rounding) (x y : Int) :
     (opIdiv R (.int x) (.int y)).map absNum = specBin R .idiv (.integer x) (.integer y) := by
   by_cases hy : y = 0
-  · simp [opIdiv, coerce, mixedOverflow, intOvf, isFloat, numIsInf, numIsNan, isZero, hy, absNum, specBin, XVal.toRat?, exactBin,
+  · simp [opIdiv, coerce, mixedOverflow, intOvf, isFloat, promF, isFlt, isDbl, numIsInf, numIsNan, isZero, hy, absNum, specBin, XVal.toRat?, exactBin,
       Except.map, throw, throwThe, MonadExceptOf.throw]
   · have hyq : (y : Rat) ≠ 0 := by exact_mod_cast hy
-    simp [opIdiv, coerce, mixedOverflow, intOvf, isFloat, numIsInf, numIsNan, isZero, hy, hyq, absNum, specBin, XVal.toRat?, exactBin,
+    simp [opIdiv, coerce, mixedOverflow, intOvf, isFloat, promF, isFlt, isDbl, numIsInf, numIsNan, isZero, hy, hyq, absNum, specBin, XVal.toRat?, exactBin,
       Except.map, pure, Except.pure, idivInt_eq_tdiv, trunc_div_int _ _ hy]
 
 theorem mod_int_int_eq_spec (R : Rounding) (v : Ver) (x y : Int) :
     (opMod R v (.int x) (.int y)).map absNum = specBin R .mod (.integer x) (.integer y) := by
   by_cases hy : y = 0
-  · simp [opMod, coerce, mixedOverflow, intOvf, isFloat, numIsInf, isZero, isFloat, hy, absNum, specBin, XVal.toRat?, exactBin,
+  · simp [opMod, coerce, mixedOverflow, intOvf, isFloat, promF, isFlt, isDbl, numIsInf, isZero, isFloat, hy, absNum, specBin, XVal.toRat?, exactBin,
       Except.map, throw, throwThe, MonadExceptOf.throw]
   · have hyq : (y : Rat) ≠ 0 := by exact_mod_cast hy
     have hm : ((x : Rat) - (y : Rat) * ((x.tdiv y : Int) : Rat)) = ((x.tmod y : Int) : Rat) := by
       have := Int.mul_tdiv_add_tmod x y
       have e : x.tmod y = x - y * x.tdiv y := by omega
       rw [e]; push_cast; ring
-    simp [opMod, coerce, mixedOverflow, intOvf, isFloat, numIsInf, isZero, isFloat, hy, hyq, absNum, specBin, XVal.toRat?, exactBin, promote,
+    simp [opMod, coerce, mixedOverflow, intOvf, isFloat, promF, isFlt, isDbl, numIsInf, isZero, isFloat, hy, hyq, absNum, specBin, XVal.toRat?, exactBin, promote,
       XVal.ty, Ty.rank, Except.map, pure, Except.pure, modInt_eq_tmod, trunc_div_int _ _ hy, hm, floor_intCast']
 
 end EPV.Arith
